@@ -423,17 +423,11 @@ theorem abs_apply_set (c : RtCtx) (σ : CState) (isStart : Bool) (i : Nat) (e : 
 
 /-! ### String assignment -/
 
-def allocS (c : RtCtx) (isStart : Bool) (i : Nat) (b : StrBuf) : StrBuf :=
-  if c.realloc i && isStart && !(c.hasDefault i) then
-    { b with alloc := .heap, bytes := Array.replicate (c.ty i).size none }
-  else allocB c i b
+def allocS (c : RtCtx) (_isStart : Bool) (i : Nat) (b : StrBuf) : StrBuf := allocB c i b
 
 theorem setStrAlloc_updStr (c : RtCtx) (σ : CState) (isStart : Bool) (i : Nat) :
-    c.setStrAlloc σ isStart i = σ.updStr i (allocS c isStart i) := by
-  simp only [RtCtx.setStrAlloc]
-  by_cases hc : (c.realloc i && isStart && !(c.hasDefault i)) = true
-  · rw [if_pos hc, CState.updStr]; unfold allocS; rw [if_pos hc]
-  · rw [if_neg hc, onDemandAlloc_updStr, CState.updStr, CState.updStr]; unfold allocS; rw [if_neg hc]
+    c.setStrAlloc σ isStart i = σ.updStr i (allocS c isStart i) :=
+  onDemandAlloc_updStr c σ i
 
 def fillB (vals : Nat → Nat) (ks : List Nat) (b : StrBuf) : StrBuf :=
   { b with bytes := ks.foldl (fun a k => a.setIfInBounds k (some (vals k % 256))) b.bytes }
